@@ -48,8 +48,12 @@ class SeqModel:
 
     def __init__(self, nsess: int = 2, oracle: str = 'c01',
                  cmds=None, idle: bool = True, observer: bool = False,
-                 probe_cmd: bytes = b'NOOP', predeleted: bool = False) -> None:
+                 probe_cmd: bytes = b'NOOP', predeleted: bool = False,
+                 ro_actor: bool = False) -> None:
         self.nsess = nsess
+        # session 0 has the mailbox selected read-only (EXAMINE) and still
+        # sends the whole alphabet: its mutations are refused
+        self.ro_actor = ro_actor
         self.oracle = oracle
         self.observer = observer
         # start from a non-initial state: messages 1 and 2 already \Deleted
@@ -61,7 +65,8 @@ class SeqModel:
         table = dict(CMDS)
         self.params = {'nsess': nsess, 'oracle': oracle, 'cmds': names,
                        'idle': idle, 'observer': observer,
-                       'probe_cmd': probe_cmd, 'predeleted': predeleted}
+                       'probe_cmd': probe_cmd, 'predeleted': predeleted,
+                       'ro_actor': ro_actor}
         self._alpha = []
         for si in range(nsess):
             for n in names:
@@ -100,7 +105,8 @@ class SeqModel:
         st = ctx.do(0, b'CREATE Other')
         assert st.cond == 'OK', st.raw
         for si in range(n):
-            if self.observer and si == n - 1:
+            if (self.observer and si == n - 1) or \
+                    (self.ro_actor and si == 0):
                 st = ctx.do(si, b'EXAMINE INBOX')
             else:
                 st = ctx.do(si, b'SELECT INBOX')
